@@ -1,0 +1,87 @@
+//go:build verif
+
+package validate
+
+import (
+	re "regexp"
+)
+
+// Verification hooks, compiled only with the "verif" build tag.
+//
+// They forward the linearization points of the package's shared state (object pools,
+// regexp cache, spec validation phases) to an external conformance harness.
+// All variables are nil by default: in that case every hook is a no-op.
+
+var (
+	// VerifOnRedeem is called with the object about to be Put back in its pool, while the
+	// redeemer still owns it. Returning true drops the object instead of pooling it.
+	VerifOnRedeem func(pool string, obj any) bool
+	// VerifOnBorrow is called with the object just obtained from a pool (validatedebug build only).
+	VerifOnBorrow func(pool string, obj any)
+	// VerifOnGate is called at the steps of the regexp cache protocol.
+	VerifOnGate func(point string)
+	// VerifOnPhase is called after each phase of (*SpecValidator).Validate.
+	VerifOnPhase func(phase string, errs, warnings *Result)
+)
+
+func verifRedeem(pool string, obj any) bool {
+	if f := VerifOnRedeem; f != nil {
+		return f(pool, obj)
+	}
+	return false
+}
+
+func verifBorrow(pool string, obj any) {
+	if f := VerifOnBorrow; f != nil {
+		f(pool, obj)
+	}
+}
+
+func verifGate(point string) {
+	if f := VerifOnGate; f != nil {
+		f(point)
+	}
+}
+
+func verifPhase(phase string, errs, warnings *Result) {
+	if f := VerifOnPhase; f != nil {
+		f(phase, errs, warnings)
+	}
+}
+
+// VerifEmptyResult exposes the shared immutable empty result.
+func VerifEmptyResult() *Result { return emptyResult }
+
+// VerifResetPools replaces all pools by empty ones.
+func VerifResetPools() { resetPools() }
+
+// VerifResetRegexpCache empties the regexp cache.
+func VerifResetRegexpCache() {
+	cacheMutex.Lock()
+	defer cacheMutex.Unlock()
+	reDict.Store(map[string]*re.Regexp{})
+}
+
+// VerifRegexpCacheSnapshot returns pattern -> source text of the cached expression.
+func VerifRegexpCacheSnapshot() map[string]string {
+	out := map[string]string{}
+	if cache, ok := reDict.Load().(map[string]*re.Regexp); ok {
+		for k, v := range cache {
+			out[k] = v.String()
+		}
+	}
+	return out
+}
+
+// VerifBorrowResult borrows a result from the pool of results (flagged for redeem on merge).
+func VerifBorrowResult() *Result { return pools.poolOfResults.BorrowResult() }
+
+// VerifWantsRedeemOnMerge tells whether a result is flagged for redeem on merge.
+func VerifWantsRedeemOnMerge(r *Result) bool { return r != nil && r.wantsRedeemOnMerge }
+
+// VerifDefaultOpts returns a copy of the package-level default options.
+func VerifDefaultOpts() Opts {
+	defaultOptsMutex.Lock()
+	defer defaultOptsMutex.Unlock()
+	return defaultOpts
+}
